@@ -74,6 +74,10 @@ CLAIMED = {
          "Exploration. UnwindContext reuse over pools of generated FDEs (incl. failing ones, 0/1/many initial rules, args_size) along all ordered pairs/triples and generated longer histories with partial evaluations, on heap and four fixed storages; one entry buffer across all entries and after failed reads; EntriesTree::root after partial traversals; clones of cursors / line rows / unit-header iterators at every position; Dwarf::unit under every abbreviation cache strategy incl. shared and invalid abbreviation offsets. Every result must equal the result on fresh state.",
          "Fresh state is the oracle (the same gimli code on new objects). List/CFI-entry/operation iterators are not cloned; their re-use is covered by C05/C07/C08 resume tests.",
          "DESIGN.md §4 C20"),
+ 'C18': ("proptest random unit tables and frame tables written twice (constant addresses through the plain writer; symbol+addend addresses through a relocation-recording RelocateWriter); differential oracles: applied relocations vs direct write (byte equality), and RelocateReader over garbage-filled relocated fields vs plain reader over pre-applied bytes (full dump equality)",
+         "Exploration. The C11 unit generator plus generated .debug_frame/.eh_frame tables with absolute, pc-relative and sized pointer encodings. Writing side: recorded relocations applied to the recorded output must reproduce the direct output byte for byte, lie inside their sections and not overlap. Reading side: every recorded field is overwritten with garbage and parsed through RelocateReader with the recorded table; the dump of everything the reader exposes must equal that of the pre-applied bytes, which fails for any address or section offset parsed outside the relocatable primitives.",
+         "Sections are placed at address 0 and the relocation table ignores stored bytes (RELA style). Requests refused under only one address representation are skipped. 'Nothing else is relocated' is covered only in the sense that unrecorded offsets are never altered by the table.",
+         "DESIGN.md §4 C18"),
 }
 NOT_YET = "check not built yet in this session (machinery is being extended property by property; see DESIGN.md §4)"
 
